@@ -552,10 +552,10 @@ theorem simS (c : Ctx W HS) (lib : LibSpec c) : (s : Stmt) â†’ coreS s = true â†
       rw [hr.loc x (h.2 x hx)]
     have key : RelX c
         (seqX (stepM (liftW (c.envI.host.bindStmt src (loads.map fun x => (x, lookupV c.envR st x)))) fun vals =>
-          stepM (do setLoc name vals.head?; postBind1 c.envI name) fun _ => done .normal)
+          stepM (do setLoc name (some (vals.headD .noneV)); postBind1 c.envI name) fun _ => done .normal)
           (execB c.envI c.fuel (genName c.cfg name)))
         (stepM (liftW (c.envR.host.bindStmt src (loads.map fun x => (x, lookupV c.envR st x)))) fun vals =>
-          stepM (do setLoc name vals.head?; postBind1 c.envR name) fun _ => done .normal) := by
+          stepM (do setLoc name (some (vals.headD .noneV)); postBind1 c.envR name) fun _ => done .normal) := by
       rw [seqX_stepM]
       refine relX_stepM c (relM_liftW c _) fun vals => ?_
       simp only [postBind1_envI, bind_pure_M, stepM_bind]
@@ -578,10 +578,10 @@ theorem simS (c : Ctx W HS) (lib : LibSpec c) : (s : Stmt) â†’ coreS s = true â†
       rw [hr.loc x (h.2 x hx)]
     have key : RelX c
         (seqX (stepM (liftW (c.envI.host.bindStmt src (loads.map fun x => (x, lookupV c.envR st x)))) fun vals =>
-          stepM (do setLoc name vals.head?; postBind1 c.envI name) fun _ => done .normal)
+          stepM (do setLoc name (some (vals.headD .noneV)); postBind1 c.envI name) fun _ => done .normal)
           (execB c.envI c.fuel (genName c.cfg name)))
         (stepM (liftW (c.envR.host.bindStmt src (loads.map fun x => (x, lookupV c.envR st x)))) fun vals =>
-          stepM (do setLoc name vals.head?; postBind1 c.envR name) fun _ => done .normal) := by
+          stepM (do setLoc name (some (vals.headD .noneV)); postBind1 c.envR name) fun _ => done .normal) := by
       rw [seqX_stepM]
       refine relX_stepM c (relM_liftW c _) fun vals => ?_
       simp only [postBind1_envI, bind_pure_M, stepM_bind]
